@@ -721,3 +721,45 @@ T("C07", "twin-controlled-power-reassociated", (GAT, """        return Controlle
         )""", """        return self.wrapped_gate.power(exponent).controlled(self.num_control_qubits)"""))
 T("C07", "twin-dagger-via-H", (GAT, "        return self.wrapped_gate.matrix.adjoint()", "        return self.wrapped_gate.matrix.H"))
 T("C07", "twin-power-dagger-reordered", (GAT, "        return self.wrapped_gate.dagger.power(self.exponent)", "        return Dagger(Power(self.wrapped_gate, self.exponent))"))
+
+# ----------------------------------------------------------------------------- C02
+MAT = "circuits/_matrices.py"
+BUI = "circuits/_builtin_gates.py"
+
+B("C02", "cnot-declared-one-qubit", (BUI, 'CNOT = _gates.MatrixFactoryGate("CNOT", _matrices.cnot_matrix, (), 2, is_hermitian=True)', 'CNOT = _gates.MatrixFactoryGate("CNOT", _matrices.cnot_matrix, (), 1, is_hermitian=True)'), rule="C02-D2")
+B("C02", "rename-gate-string", (BUI, 'SX = _gates.MatrixFactoryGate("SX", _matrices.sx_matrix, (), 1)', 'SX = _gates.MatrixFactoryGate("SqrtX", _matrices.sx_matrix, (), 1)'), rule="C02-D1")
+B("C02", "flag-s-hermitian", (BUI, 'S = _gates.MatrixFactoryGate("S", _matrices.s_matrix, (), 1)', 'S = _gates.MatrixFactoryGate("S", _matrices.s_matrix, (), 1, is_hermitian=True)'), rule="C02-D3")
+B("C02", "flag-rx-hermitian", (BUI, 'RX = make_parametric_gate_prototype("RX", _matrices.rx_matrix, 1)', 'RX = make_parametric_gate_prototype("RX", _matrices.rx_matrix, 1, is_hermitian=True)'), rule="C02-D3")
+B("C02", "flag-iswap-hermitian", (BUI, 'ISWAP = _gates.MatrixFactoryGate("ISWAP", _matrices.iswap_matrix, (), 2)', 'ISWAP = _gates.MatrixFactoryGate("ISWAP", _matrices.iswap_matrix, (), 2, True)'), rule="C02-D3")
+B("C02", "ragged-literal", (MAT, "    return sympy.Matrix([[1, 0, 0, 0], [0, 0, 1, 0], [0, 1, 0, 0], [0, 0, 0, 1]])", "    return sympy.Matrix([[1, 0, 0, 0], [0, 0, 1, 0], [0, 1, 0], [0, 0, 0, 1]])"), rule="C02-D2")
+B("C02", "numpy-sqrt-back-in-h", (MAT, "            [float(1 / np.sqrt(2)), float(1 / np.sqrt(2))],", "            [1 / np.sqrt(2), float(1 / np.sqrt(2))],"), rule="C02-D4")
+B("C02", "yy-corner-sign", (MAT, "            [1j * sympy.sin(angle / 2), 0, 0, sympy.cos(angle / 2)],\n        ]\n    )\n\n\ndef zz_matrix", "            [-1j * sympy.sin(angle / 2), 0, 0, sympy.cos(angle / 2)],\n        ]\n    )\n\n\ndef zz_matrix"), rule="C02-D5")
+B("C02", "ms-phase-sign", (MAT, "            [0, -1j * sympy.exp(1j * (phi_0 - phi_1)), 1, 0],", "            [0, -1j * sympy.exp(-1j * (phi_0 - phi_1)), 1, 0],"), rule="C02-D5")
+B("C02", "rz-both-phases-positive", (MAT, "                sympy.exp(-1 * sympy.I * angle / 2),", "                sympy.exp(-1 * sympy.I * (angle + np.pi) / 2),"), rule="C02-D6")
+B("C02", "gpi2-unnormalised", (MAT, "def gpi2_matrix(theta):\n    \"\"\"Based on https://ionq.com/docs/getting-started-with-native-gates\"\"\"\n    return (2 ** (-0.5)) * sympy.Matrix(", "def gpi2_matrix(theta):\n    \"\"\"Based on https://ionq.com/docs/getting-started-with-native-gates\"\"\"\n    return (2 ** (-1)) * sympy.Matrix("), rule="C02-D5")
+B("C02", "t-is-pi-over-eight", (MAT, "            [0, sympy.exp(1j * np.pi / 4)],", "            [0, sympy.exp(1j * np.pi / 8)],"), rule="C02-D7")
+B("C02", "sx-conjugated", (MAT, "            [(1 + 1j) / 2, (1 - 1j) / 2],\n            [(1 - 1j) / 2, (1 + 1j) / 2],", "            [(1 + 1j) / 2, (1 + 1j) / 2],\n            [(1 - 1j) / 2, (1 - 1j) / 2],"), rule="C02-D")
+B("C02", "xx-cos-for-sin", (MAT, "            [0, sympy.cos(angle / 2), -1j * sympy.sin(angle / 2), 0],\n            [0, -1j * sympy.sin(angle / 2), sympy.cos(angle / 2), 0],\n            [-1j * sympy.sin(angle / 2), 0, 0, sympy.cos(angle / 2)],\n        ]\n    )\n\n\ndef yy_matrix", "            [0, sympy.cos(angle / 2), -1j * sympy.cos(angle / 2), 0],\n            [0, -1j * sympy.sin(angle / 2), sympy.cos(angle / 2), 0],\n            [-1j * sympy.sin(angle / 2), 0, 0, sympy.cos(angle / 2)],\n        ]\n    )\n\n\ndef yy_matrix"), rule="C02-D5")
+B("C02", "cz-sign-moved", (MAT, "            [0, 0, 1, 0],\n            [0, 0, 0, -1],\n        ]\n    )\n\n\ndef swap_matrix", "            [0, 0, -1, 0],\n            [0, 0, 0, 1],\n        ]\n    )\n\n\ndef swap_matrix"), rule="C02-D7")
+B("C02", "cnot-controls-on-zero", (MAT, "            [1, 0, 0, 0],\n            [0, 1, 0, 0],\n            [0, 0, 0, 1],\n            [0, 0, 1, 0],", "            [0, 1, 0, 0],\n            [1, 0, 0, 0],\n            [0, 0, 1, 0],\n            [0, 0, 0, 1],"), rule="C02-D7")
+B("C02", "phase-not-a-phase", (MAT, "def phase_matrix(angle):\n    return sympy.Matrix(\n        [\n            [1, 0],\n            [0, sympy.exp(1j * angle)],", "def phase_matrix(angle):\n    return sympy.Matrix(\n        [\n            [1, 0],\n            [0, sympy.exp(angle)],"), rule="C02-D")
+B("C02", "ry-divided-by-cos", (MAT, "                -1 * sympy.sin(angle / 2),\n            ],", "                -1 * sympy.sin(angle / 2) / sympy.cos(angle),\n            ],"), rule="C02-D4")
+B("C02", "delay-is-not-identity", (MAT, "    return i_matrix()", "    return z_matrix()"), rule="C02-D7")
+B("C02", "prototype-swaps-slots", (BUI, "            name, matrix_factory, gate_parameters, num_qubits, is_hermitian", "            name, matrix_factory, gate_parameters, num_qubits, not is_hermitian"), rule="C02-D1")
+B("C02", "xy-not-additive", (MAT, "            [0, sympy.cos(angle / 2), 1j * sympy.sin(angle / 2), 0],\n            [0, 1j * sympy.sin(angle / 2), sympy.cos(angle / 2), 0],\n            [0, 0, 0, 1],", "            [0, sympy.cos(angle / 2), 1j * sympy.sin(angle / 2), 0],\n            [0, 1j * sympy.sin(angle / 2), sympy.cos(angle / 2), 0],\n            [0, 0, 0, sympy.exp(1j * angle) * sympy.cos(angle)],"), rule="C02-D")
+B("C02", "rh-phase-doubled", (MAT, "    phase_factor = sympy.cos(angle / 2) + 1j * sympy.sin(angle / 2)", "    phase_factor = sympy.cos(angle / 2) + 2j * sympy.sin(angle / 2)"), rule="C02-D5")
+T("C02", "twin-reorder-table", (BUI, 'X = _gates.MatrixFactoryGate("X", _matrices.x_matrix, (), 1, is_hermitian=True)\nY = _gates.MatrixFactoryGate("Y", _matrices.y_matrix, (), 1, is_hermitian=True)', 'Y = _gates.MatrixFactoryGate("Y", _matrices.y_matrix, (), 1, is_hermitian=True)\nX = _gates.MatrixFactoryGate("X", _matrices.x_matrix, (), 1, is_hermitian=True)'))
+T("C02", "twin-sympy-I", (MAT, "    return sympy.Matrix([[0, -1j], [1j, 0]])", "    return sympy.Matrix([[0, -sympy.I], [sympy.I, 0]])"))
+T("C02", "twin-rz-trig-form", (MAT, "                sympy.exp(-1 * sympy.I * angle / 2),", "                sympy.cos(angle / 2) - 1j * sympy.sin(angle / 2),"))
+T("C02", "twin-h-scalar-factor", (MAT, """    return sympy.Matrix(
+        [
+            [float(1 / np.sqrt(2)), float(1 / np.sqrt(2))],
+            [float(1 / np.sqrt(2)), float(-1 / np.sqrt(2))],
+        ]
+    )""", """    return sympy.Matrix([[1, 1], [1, -1]]) / sympy.sqrt(2)"""))
+T("C02", "twin-zz-exponential-form", (MAT, "            [sympy.cos(angle / 2) - 1j * sympy.sin(angle / 2), 0, 0, 0],", "            [sympy.exp(-1j * angle / 2), 0, 0, 0],"))
+T("C02", "twin-local-variable", (MAT, """def phase_matrix(angle):
+    return sympy.Matrix(""", """def phase_matrix(angle):
+    unused_half = angle / 2
+    return sympy.Matrix("""))
+T("C02", "twin-u3-phase-multiplied", (MAT, "        / sympy.exp(-0.5j * (phi + lambda_))", "        * sympy.exp(0.5j * (phi + lambda_))"))
